@@ -12,10 +12,11 @@ REPLAYS = os.path.join(ROOT, "replays")
 REPO = os.environ.get("VERIF_REPO", "/repo")
 ALT = REPO != "/repo"
 ENV = dict(os.environ, CARGO_NET_OFFLINE="true")
+ALT_TAG = os.environ.get("VERIF_ALT_TAG", "") if ALT else ""   # several alternative checkouts side by side
 if ALT:
-    WORK = os.path.join(ROOT, "work-alt")
-    REPLAYS = os.path.join(ROOT, "replays-alt")
-    ENV["CARGO_TARGET_DIR"] = os.path.join(HARNESS, "target-alt")
+    WORK = os.path.join(ROOT, "work-alt" + ALT_TAG)
+    REPLAYS = os.path.join(ROOT, "replays-alt" + ALT_TAG)
+    ENV["CARGO_TARGET_DIR"] = os.path.join(HARNESS, "target-alt" + ALT_TAG)
 
 sys.path.insert(0, os.path.dirname(os.path.abspath(__file__)))
 from props import PROPS  # noqa: E402
@@ -227,7 +228,7 @@ def cargo_build(profile):
 
 
 def harness_bin(profile):
-    return os.path.join(HARNESS, "target-alt" if ALT else "target", profile, "cao-verif-harness")
+    return os.path.join(HARNESS, ("target-alt" + ALT_TAG) if ALT else "target", profile, "cao-verif-harness")
 
 
 def eval_shard(path):
@@ -316,7 +317,7 @@ def main(argv):
         n_cases = r.get("n", n_cases)
     t0 = time.time()
     os.makedirs(REPLAYS, exist_ok=True)
-    os.makedirs(os.path.join(ROOT, "evidence-alt" if ALT else "evidence"), exist_ok=True)
+    os.makedirs(os.path.join(ROOT, ("evidence-alt" + ALT_TAG) if ALT else "evidence"), exist_ok=True)
     violations = []      # (replay dict, found_input: bool)
     known_lines = []
     notes = []
@@ -523,7 +524,7 @@ def main(argv):
         "violations": len(violations),
     }
     ev["coverage"].update(cfg.get("extra_coverage", {}))
-    with open(os.path.join(ROOT, "evidence-alt" if ALT else "evidence", prop + ".json"), "w") as f:
+    with open(os.path.join(ROOT, ("evidence-alt" + ALT_TAG) if ALT else "evidence", prop + ".json"), "w") as f:
         json.dump(ev, f, indent=1)
 
     for line in known_lines:
